@@ -23,7 +23,9 @@
 (*   release  frees the receiver's buffer.                                  *)
 (* The payload read from a received buffer must be the one its claimer      *)
 (* wrote.  Shared-variable snapshots, operation names and the number of     *)
-(* atomic operations per call are ignored.                                  *)
+(* atomic operations per call are ignored.  Plain accesses to the message   *)
+(* buffers (recorded by the instrumentation, including block operations)    *)
+(* must come from the context that holds the buffer.                        *)
 (*                                                                          *)
 (* Search: Invoke / Lin are silent steps, Consume eats one trace line.      *)
 (* Lin(c) looks ahead to the result c will report, so that only             *)
@@ -134,6 +136,9 @@ Consume ==
        [] ev.e = "S" ->
             LET c == ev.c IN
             /\ c \in Ctx /\ phase[c] # "idle"
+            \* memory side of exclusive ownership: a plain access to a message buffer is made by the context that holds it
+            \* (the call that takes or gives up the buffer has taken effect - Lin - before the step that reports it is consumed)
+            /\ \A j \in 1..Len(ev.hb) : (ev.hb[j].k \in {"R", "W"} /\ ev.hb[j].v = "slot") => held[c] = ev.hb[j].i
             /\ IF ev.calls = <<>>
                  THEN UNCHANGED <<geo, owner, pay, sendp, receivep, phase, call, res, held, k>>
                  ELSE /\ phase[c] = "done"
